@@ -11,6 +11,17 @@
  *               wideband where that limit is medium band (the MDCT layer has no medium band)
  *   layer     : RESTRICTED_LOWDELAY, or a duration below 10 ms  => MDCT-only TOC (bit 7 set)
  * Packets whose every frame carries <= 1 payload byte are "empty" (G5b: DTX / low-budget TOC-only packets) and exempt.
+ * Schedule items ("thereafter" is a quantifier over what the stream does AFTER the setting was made): for every single setting
+ * of the clause-relevant dimensions (default, forced bandwidth x5, maximum bandwidth x5 (FULLBAND = the defaults), forced channels x2, expert duration) on
+ * every base, 40-packet streams whose CONDITIONS change at <= 2 switch points. A condition is a tuple of the encoder's decision
+ * inputs: frame duration fed {2.5,5,10,20,60 ms} x bitrate {12 kb/s, 96 kb/s} x signal class {speech-like, noise, digital
+ * silence} x {VBR, CBR} (60 conditions; bitrate/VBR are ctl calls made at the switch point).  Families:
+ *   (S1) conditions within one deviation of (20 ms, 12 kb/s, speech, VBR): all streams A, A|B, A|B|A          (quick + thorough)
+ *   (S2) any of the 60 conditions first, each switch changes exactly one input: A, A|B, A|B|C                 (thorough)
+ * Every packet is checked against the same four TOC clauses (duration = the frame fed), the MDCT medium-band exception being
+ * granted to MDCT-only packets alone, and after EVERY frame the getters of the settings made before the first frame
+ * (max bandwidth, forced channels, expert duration, application) and of the condition (bitrate, VBR) must still read them.
+ * Layer switches (LP/hybrid <-> MDCT-only between consecutive packets) are counted per setting dimension.
  * Mid-stream items: forced channel count changed A -> B after 6 packets; from the third packet after the change on, every
  * non-empty packet must carry B channels ("takes effect within three packets").
  */
@@ -43,7 +54,9 @@ static int fd_units(int v){ static const int u[]={0,1,2,4,8,16,24,32,40,48}; ret
 
 static const int FSS[5]={8000,12000,16000,24000,48000}; static const int APPS[3]={OPUS_APPLICATION_VOIP,OPUS_APPLICATION_AUDIO,OPUS_APPLICATION_RESTRICTED_LOWDELAY};
 static const int SIGS[3]={SIG_SPEECH,SIG_NOISE,SIG_STEREOPAN};
-static short *PCM[5][2][3];   /* precomputed before the fork: [Fs][ch-1][signal], SECS s + 120 ms */
+static short *PCM[5][2][3];   /* precomputed before the fork: [Fs][ch-1][signal], max(SECS,3) s + 120 ms */
+static short *ZEROS;           /* digital silence, same length at 48 kHz stereo */
+static long PCMLEN[5];         /* samples per channel available in PCM[fi] */
 static int SECS;
 
 static mc_ctr *c_enc,*c_eval,*c_empty,*c_streams,*c_skipped,*c_encerr,*c_mid;
@@ -115,10 +128,113 @@ static void run_stream(int fi,int ch,int ai,const setting *s,int ns,int sg,int m
    opus_encoder_destroy(e);
 }
 
-typedef struct { unsigned char base; short a,b; signed char mid,midA,midB; } item_t;
+
+/* ------------------------------------------------------------------ schedules of stream conditions */
+typedef struct { unsigned char d,r,s,v; } cond_t;                 /* duration idx, rate idx, signal class, vbr */
+static const int SD_UNITS[5]={1,2,4,8,24};                        /* 2.5, 5, 10, 20, 60 ms in 2.5 ms units */
+static const int SR_RATE[2]={12000,96000};
+static const char *const SS_NAME[3]={"speech-like","white-noise","silence"};
+static const cond_t CREF={3,0,0,1};
+static cond_t cond_of(int i){ cond_t c; c.d=i%5; c.r=(i/5)%2; c.s=(i/10)%3; c.v=(i/30)%2; return c; }
+static int cond_dist(cond_t a,cond_t b){ return (a.d!=b.d)+(a.r!=b.r)+(a.s!=b.s)+(a.v!=b.v); }
+/* settings explored under schedules: index 0 = defaults, then SING[] entries of these dimensions */
+static int SCHSET[40], nschset;
+enum { T_DEFAULT, T_BANDWIDTH, T_MAXBW, T_FORCECH, T_EXPERT, NT };
+static const char *const TNAME[NT]={"default","BANDWIDTH","MAX_BANDWIDTH","FORCE_CHANNELS","EXPERT_FRAME_DURATION"};
+static mc_ctr *c_sch[NT],*c_spk[NT],*c_ssw[NT],*c_appsw[3],*c_getter;
+static int tag_of(int si){ if(si<0) return T_DEFAULT; switch(SING[si].dim){ case D_BANDWIDTH: return T_BANDWIDTH; case D_MAXBW: return T_MAXBW; case D_FORCECH: return T_FORCECH; default: return T_EXPERT; } }
+
+static const char *sched_str(const cond_t *c,int nseg,const int *len,int expert){
+   static char b[260]; int i,k=0; b[0]=0;
+   for(i=0;i<nseg;i++){ k+=snprintf(b+k,sizeof b-k,"%s%dx(",i?" | ":"",len[i]); if(expert) k+=snprintf(b+k,sizeof b-k,"expert"); else k+=snprintf(b+k,sizeof b-k,"%gms",SD_UNITS[c[i].d]*2.5);
+      k+=snprintf(b+k,sizeof b-k,",%db/s,%s,%s)",SR_RATE[c[i].r],SS_NAME[c[i].s],c[i].v?"VBR":"CBR"); }
+   return b;
+}
+static void getter_check(OpusEncoder *e,int req,const char *name,int want,int Fs,int ch,int app,const char *what,int idx){
+   opus_int32 v=-12345; int r=opus_encoder_ctl(e,req,&v);
+   if (r!=OPUS_OK||v!=want){ char sig[64]; snprintf(sig,sizeof sig,"honour:getter-drift:%s",name); MC_INC(c_getter);
+      mc_fail(sig,"Fs=%d ch=%d app=%d %s after packet#%d: GET_%s ret=%d reads %d, set to %d",Fs,ch,app,what,idx,name,r,v,want); }
+}
+/* one 40-packet stream: setting si (or -1) before the first frame, then conditions c[0..nseg-1] */
+static void run_schedule(int fi,int ch,int ai,int si,const cond_t *c,int nseg){
+   static const int LEN[3][3]={{40,0,0},{20,20,0},{13,13,14}};
+   int Fs=FSS[fi],app=APPS[ai],err,idx=0,seg=0,left,prev_celt=-1,tag=tag_of(si),nsw=0; long pos=0; force_t f; OpusEncoder *e; unsigned char out[7700]; char what[420];
+   const int *len=LEN[nseg-1];
+   f.fc=OPUS_AUTO; f.ubw=OPUS_AUTO; f.mbw=OPUS_BANDWIDTH_FULLBAND; f.expert=0; f.arg=8;
+   e=opus_encoder_create(Fs,ch,app,&err); if(!e){ mc_fail("harness:create","encoder create failed %d",err); return; }
+   if (si>=0){
+      int r=opus_encoder_ctl(e,DREQ[SING[si].dim],SING[si].val);
+      if (r!=OPUS_OK){ if (!(SING[si].dim==D_FORCECH&&SING[si].val==2&&ch==1)) mc_fail("honour:setting-refused","Fs=%d ch=%d app=%d %s=%d refused with %d before the first frame",Fs,ch,app,DNAME[SING[si].dim],SING[si].val,r);
+         MC_INC(c_skipped); opus_encoder_destroy(e); return; }
+      switch(SING[si].dim){ case D_FORCECH: f.fc=SING[si].val; break; case D_BANDWIDTH: f.ubw=SING[si].val; break; case D_MAXBW: f.mbw=SING[si].val; break; case D_FRAMEDUR: f.expert=fd_units(SING[si].val); break; default: break; }
+   }
+   snprintf(what,sizeof what,"settings{%s} schedule[%s]",si>=0?set_str(&SING[si],1):"defaults",sched_str(c,nseg,len,f.expert));
+   MC_INC(c_streams); MC_INC(c_sch[tag]);
+   mc_set_add(S_streams,mc_mix(mc_mix(fi*6+ch*3+ai,si+7),mc_hash(c,nseg*sizeof(cond_t),0x5c4ed)));
+   mc_case("encode-schedule","Fs=%d ch=%d app=%d %s",Fs,ch,app,what);
+   left=len[0];
+   for(idx=0;idx<40;idx++){
+      int n,nsamp,celt,units; const short *pcm; cond_t k;
+      if (left==0){ seg++; left=len[seg]; }
+      k=c[seg];
+      if (left==len[seg]){   /* segment start: the condition's ctl inputs */
+         if (opus_encoder_ctl(e,OPUS_SET_BITRATE(SR_RATE[k.r]))!=OPUS_OK || opus_encoder_ctl(e,OPUS_SET_VBR(k.v))!=OPUS_OK){ mc_fail("honour:setting-refused","Fs=%d ch=%d app=%d %s: bitrate/VBR refused at packet#%d",Fs,ch,app,what,idx); break; }
+      }
+      left--;
+      units = f.expert? f.expert : SD_UNITS[k.d]; f.arg=units;
+      if (pos+(long)units*Fs/400 > PCMLEN[fi]) pos=0;
+      pcm = k.s==2? ZEROS : PCM[fi][ch-1][k.s]+pos*ch;
+      n=opus_encode(e,pcm,units*Fs/400,out,sizeof out); MC_INC(c_enc); MC_INC(c_spk[tag]);
+      if (n<=0){ MC_INC(c_encerr); mc_info("encode error %d: Fs=%d ch=%d app=%d %s packet#%d",n,Fs,ch,app,what,idx); break; }
+      nsamp=opus_packet_get_nb_samples(out,n,Fs); if(nsamp<=0){ mc_fail("honour:unparseable-packet","Fs=%d ch=%d %s packet#%d",Fs,ch,what,idx); break; }
+      celt=(out[0]&0x80)!=0;
+      if (prev_celt>=0 && celt!=prev_celt){ nsw++; MC_INC(c_ssw[tag]); MC_INC(c_appsw[ai]); }
+      prev_celt=celt;
+      if (is_empty(out,n)) MC_INC(c_empty);
+      else {
+         check_packet(Fs,ch,app,&f,out,n,idx,what,SS_NAME[k.s],f.fc==OPUS_AUTO?0:f.fc);
+         if (mc_set_add(S_obs,mc_mix(mc_mix(fi*6+ch*3+ai,out[0]&0xFC),mc_mix(si+7,mc_mix(seg,mc_hash(&k,sizeof k,nsw>0))))))
+            mc_sample("Fs=%d ch=%d app=%d %s packet#%d: toc=%02x (%s, bandwidth %d, %d ch, %d samples) len=%d, %d layer switch(es) so far — all clauses hold",Fs,ch,app,what,idx,out[0],
+                      celt?"MDCT":(out[0]&0x60)==0x60?"hybrid":"LP",opus_packet_get_bandwidth(out),opus_packet_get_nb_channels(out),nsamp,n,nsw);
+      }
+      /* the settings made before the first frame, and the current condition, must still read back after every frame */
+      getter_check(e,OPUS_GET_MAX_BANDWIDTH_REQUEST,"MAX_BANDWIDTH",f.mbw,Fs,ch,app,what,idx);
+      getter_check(e,OPUS_GET_FORCE_CHANNELS_REQUEST,"FORCE_CHANNELS",f.fc,Fs,ch,app,what,idx);
+      getter_check(e,OPUS_GET_EXPERT_FRAME_DURATION_REQUEST,"EXPERT_FRAME_DURATION",(si>=0&&SING[si].dim==D_FRAMEDUR)?SING[si].val:OPUS_FRAMESIZE_ARG,Fs,ch,app,what,idx);
+      getter_check(e,OPUS_GET_APPLICATION_REQUEST,"APPLICATION",app,Fs,ch,app,what,idx);
+      getter_check(e,OPUS_GET_BITRATE_REQUEST,"BITRATE",SR_RATE[k.r],Fs,ch,app,what,idx);
+      getter_check(e,OPUS_GET_VBR_REQUEST,"VBR",k.v,Fs,ch,app,what,idx);
+      pos+=nsamp;
+   }
+   opus_encoder_destroy(e);
+}
+/* all schedules of one (base, setting) whose first condition is `first` */
+static void run_sched_item(int fi,int ch,int ai,int si,int first,int full){
+   cond_t A=cond_of(first),c[3]; int expert = si>=0&&SING[si].dim==D_FRAMEDUR, b,k;
+   if (expert && A.d!=CREF.d) return;                         /* with an expert duration the frame fed is that duration: the d axis is void */
+   /* (S1) */
+   if (cond_dist(A,CREF)<=1){
+      c[0]=A; run_schedule(fi,ch,ai,si,c,1);
+      for(b=0;b<60;b++){ cond_t B=cond_of(b); if (cond_dist(B,CREF)>1||!cond_dist(A,B)||(expert&&B.d!=CREF.d)) continue;
+         c[1]=B; run_schedule(fi,ch,ai,si,c,2); c[2]=A; run_schedule(fi,ch,ai,si,c,3); }
+   }
+   if (!full) return;
+   /* (S2) */
+   if (cond_dist(A,CREF)>1){ c[0]=A; run_schedule(fi,ch,ai,si,c,1); }
+   for(b=0;b<60;b++){ cond_t B=cond_of(b); if (cond_dist(A,B)!=1||(expert&&B.d!=CREF.d)) continue;
+      c[0]=A; c[1]=B;
+      if (!(cond_dist(A,CREF)<=1&&cond_dist(B,CREF)<=1)) run_schedule(fi,ch,ai,si,c,2);
+      for(k=0;k<60;k++){ cond_t C=cond_of(k); if (cond_dist(B,C)!=1||(expert&&C.d!=CREF.d)) continue;
+         if (!cond_dist(A,C)&&cond_dist(A,CREF)<=1&&cond_dist(B,CREF)<=1) continue;   /* already run by (S1) */
+         c[2]=C; run_schedule(fi,ch,ai,si,c,3); }
+   }
+}
+
+typedef struct { unsigned char base; short a,b; signed char mid,midA,midB; signed char sched; unsigned char first; } item_t;
 static item_t *IT; static long nit;
 static void run_item(long k,void *u){
    item_t *it=&IT[k]; int fi=it->base/6, ch=(it->base/3)%2+1, ai=it->base%3, sg; setting s[3]; int ns=0; (void)u;
+   if (it->sched){ run_sched_item(fi,ch,ai,it->a,it->first,it->sched==2); return; }
    if (it->a>=0) s[ns++]=SING[it->a];
    if (it->b>=0) s[ns++]=SING[it->b];
    if (it->mid>=0 && it->midA!=0){ int i; for(i=ns;i>0;i--) s[i]=s[i-1]; s[0].dim=D_FORCECH; s[0].val=it->midA; ns++; }
@@ -126,18 +242,30 @@ static void run_item(long k,void *u){
 }
 
 int main(int argc,char **argv){
-   int fi,ch,sg,b,i,j,pairs,midstream; long cap;
+   int fi,ch,sg,b,i,j,pairs,midstream,sched; long cap;
    mc_init(argc,argv,"C11","honour");
-   SECS=(int)mc_arg("--secs",2); pairs=(int)mc_arg("--pairs",MC.tier?1:0); midstream=(int)mc_arg("--mid",1);
+   SECS=(int)mc_arg("--secs",2); pairs=(int)mc_arg("--pairs",MC.tier?1:0); midstream=(int)mc_arg("--mid",1); sched=(int)mc_arg("--sched",MC.tier?2:1);
    c_enc=mc_counter("transitions"); c_eval=mc_counter("evaluations"); c_empty=mc_counter("empty_packets_exempt"); c_streams=mc_counter("streams_encoded");
    c_skipped=mc_counter("configs_not_applicable"); c_encerr=mc_counter("encode_errors"); c_mid=mc_counter("midstream_packets_checked");
-   S_obs=mc_set_new(22); S_streams=mc_set_new(22);
+   S_obs=mc_set_new(23); S_streams=mc_set_new(23);
    build_settings();
+   { int t; char nm[48]; static const char *const AN[3]={"VOIP","AUDIO","LOWDELAY"};
+     for(t=0;t<NT;t++){ snprintf(nm,sizeof nm,"sched_streams_%s",TNAME[t]); c_sch[t]=mc_counter(nm); snprintf(nm,sizeof nm,"sched_packets_%s",TNAME[t]); c_spk[t]=mc_counter(nm);
+                        snprintf(nm,sizeof nm,"sched_layer_switches_%s",TNAME[t]); c_ssw[t]=mc_counter(nm); }
+     for(t=0;t<3;t++){ snprintf(nm,sizeof nm,"sched_layer_switches_app_%s",AN[t]); c_appsw[t]=mc_counter(nm); }
+     c_getter=mc_counter("getter_drift_failures");
+     ZEROS=calloc((size_t)(3*48000+48000*120/1000+16)*2+64,sizeof(short));
+     /* settings put under schedules: defaults, forced bandwidth x5, max bandwidth NB..SWB (FULLBAND is the default and is what the "defaults" streams run with), forced channels x2,
+        expert duration {5,20,60 ms} (quick) / all nine (thorough) */
+     SCHSET[nschset++]=-1;
+     for(i=0;i<nsing;i++) if (SING[i].dim==D_BANDWIDTH||SING[i].dim==D_MAXBW||SING[i].dim==D_FORCECH||
+         (SING[i].dim==D_FRAMEDUR&&(sched==2||SING[i].val==OPUS_FRAMESIZE_5_MS||SING[i].val==OPUS_FRAMESIZE_20_MS||SING[i].val==OPUS_FRAMESIZE_60_MS))) SCHSET[nschset++]=i;
+   }
    for(fi=0;fi<5;fi++) for(ch=1;ch<=2;ch++) for(sg=0;sg<3;sg++){
-      siggen g; long n=(long)SECS*FSS[fi]+FSS[fi]*120/1000+16; PCM[fi][ch-1][sg]=malloc(sizeof(short)*n*ch);
+      siggen g; long n=(long)(SECS>3?SECS:3)*FSS[fi]+FSS[fi]*120/1000+16; PCM[fi][ch-1][sg]=malloc(sizeof(short)*n*ch); PCMLEN[fi]=n;
       sig_init(&g,SIGS[sg],FSS[fi],ch,7+sg); sig_gen(&g,PCM[fi][ch-1][sg],(int)n);
    }
-   cap=30L*(1+nsing+(pairs?nsing*nsing/2:0))+30L*400; IT=calloc(cap,sizeof(item_t));
+   cap=30L*(1+nsing+(pairs?nsing*nsing/2:0))+30L*400+30L*40*60; IT=calloc(cap,sizeof(item_t));
    for(b=0;b<30;b++){
       IT[nit].base=b; IT[nit].a=-1; IT[nit].b=-1; IT[nit].mid=-1; nit++;
       for(i=0;i<nsing;i++){ IT[nit].base=b; IT[nit].a=i; IT[nit].b=-1; IT[nit].mid=-1; nit++; }
@@ -151,6 +279,14 @@ int main(int argc,char **argv){
             IT[nit].base=b; IT[nit].a=i; IT[nit].b=-1; IT[nit].mid=6; IT[nit].midA=AB[q][0]; IT[nit].midB=AB[q][1]; nit++;
          }
       }
+   }
+   /* schedule items (appended, so earlier item numbers and their replay files stay valid). RESTRICTED_LOWDELAY bases have a single layer:
+      they get family (S1) only, and only in the thorough tier. */
+   if (sched) for(b=0;b<30;b++) for(i=0;i<nschset;i++) for(j=0;j<60;j++){
+      int lowdelay=(b%3)==2, full = sched==2 && !lowdelay;
+      if (lowdelay && sched<2) continue;
+      if (!full && cond_dist(cond_of(j),CREF)>1) continue;
+      IT[nit].base=b; IT[nit].a=SCHSET[i]; IT[nit].b=-1; IT[nit].mid=-1; IT[nit].sched=full?2:1; IT[nit].first=j; nit++;
    }
    mc_par(nit,run_item,NULL);
    { mc_ctr *st=mc_counter("states"),*dn=mc_counter("distinct_nontrivial"); *st=mc_set_count(S_streams); *dn=mc_set_count(S_obs); }
